@@ -204,6 +204,16 @@ func scSites(mode string) func(x *vs.Exec) {
 			a.Reg(&msg.NewProxy{ProxyName: "t3", ProxyType: "tcp", RemotePort: 20000})
 			w.Quiesce()
 			a.Cut()
+		} else if mode == "relogin-close" && strings.HasPrefix(r, "ok") {
+			// the session is replaced by a re-login with its run id: its proxies stop, each with its notification
+			a.Reg(&msg.NewProxy{ProxyName: "t2", ProxyType: "tcp", RemotePort: 20003})
+			w.Quiesce()
+			if a2, _, err := w.Login("a2", sw.LoginOpt{User: "ua", RunID: a.RunID}); err != nil {
+				vs.Fail("re-login refused: %v", err)
+			} else {
+				w.Quiesce()
+				a2.Cut()
+			}
 		} else if strings.HasPrefix(r, "ok") && !a.Closed {
 			a.Reg(&msg.NewProxy{ProxyName: "t2", ProxyType: "tcp", RemotePort: 20003})
 			a.CloseProxy("t")
@@ -236,7 +246,7 @@ func scSites(mode string) func(x *vs.Exec) {
 	}
 }
 
-var modes = []string{"accept", "login-rewrite", "login-reject", "login-error", "proxy-rewrite", "proxy-reject", "proxy-error", "ping-reject", "work-reject", "user-reject", "close-error"}
+var modes = []string{"accept", "login-rewrite", "login-reject", "login-error", "proxy-rewrite", "proxy-reject", "proxy-error", "ping-reject", "work-reject", "user-reject", "close-error", "relogin-close"}
 
 func scenarios() {
 	for _, m := range modes {
@@ -249,7 +259,7 @@ func main() {
 	if c == nil {
 		return
 	}
-	c.Rule("E1: real frps with an in-memory plugin registered for all operations; 10 plugin behaviours (accept, rewrite login user, reject / error on login, rewrite remote port, reject / error on new proxy, reject ping, reject work connection, reject user connection, error on every close notification); oracle: the server acts on the rewritten content, refused operations leave nothing behind, rejected pings do not refresh liveness, close notifications = proxies that stopped (explicit close and session end); all schedules with at most B deviations")
+	c.Rule("E1: real frps with an in-memory plugin registered for all operations; 10 plugin behaviours (accept, rewrite login user, reject / error on login, rewrite remote port, reject / error on new proxy, reject ping, reject work connection, reject user connection, error on every close notification); oracle: the server acts on the rewritten content, refused operations leave nothing behind, rejected pings do not refresh liveness, close notifications = proxies that stopped (explicit close, session end, session replaced by a re-login with its run id); all schedules with at most B deviations")
 	for i, m := range modes {
 		c.ExploreBoth("site/"+m, drv.Pick(c, 1, 2), 1.0/float64(len(modes)-i))
 	}
